@@ -139,44 +139,69 @@ def _export_init(tables_dump):
     _G['tables'] = tables_dump
 
 
-class _Diverged(BaseException):
+class _Diverged(Exception):
     pass
 
 
 def _alarm(*_):
-    raise _Diverged()
+    if _G.get('armed'):
+        _G['armed'] = False
+        raise _Diverged()
 
 
 def _export_one(tree):
+    """-> (tables, source, claims | [claims order 0, claims order 1], error)"""
     p = L.flatten(tree)
     src = L.render(p)
     signal.signal(signal.SIGALRM, _alarm)
-    signal.setitimer(signal.ITIMER_REAL, ANALYSIS_TIMEOUT_S)
     try:
-        c = X.export_claims(_G['mods'], _G['tables'], tree, p, src, 0)
-        c2 = X.export_claims(_G['mods'], _G['tables'], tree, p, src, 1)
+        _G['armed'] = True
+        signal.setitimer(signal.ITIMER_REAL, ANALYSIS_TIMEOUT_S)
+        try:
+            c = X.export_claims(_G['mods'], _G['tables'], tree, p, src, 0)
+            c2 = X.export_claims(_G['mods'], _G['tables'], tree, p, src, 1)
+        finally:
+            _G['armed'] = False
+            signal.setitimer(signal.ITIMER_REAL, 0)
         if c2 != c:
             c = [c, c2]
+        return p, src, c, None
     except _Diverged:
+        return p, src, None, 'diverged'
+    except RecursionError:
         return p, src, None, 'diverged'
     except Exception as e:      # the analysis (or the exporter) failed on this program
         import traceback
         return p, src, None, '%s: %s\n%s' % (type(e).__name__, e, traceback.format_exc(limit=6))
-    finally:
-        signal.setitimer(signal.ITIMER_REAL, 0)
-    return p, src, c, None
 
 
 def export_all(trees, tables, procs):
+    limit = max(3, len(trees) // 100)
+
+    def too_many(n, src):
+        return common.MachineryError('type inference did not terminate within %.0fs on more than %d of %d programs; '
+                                     'first:\n%s' % (ANALYSIS_TIMEOUT_S, limit, len(trees), src))
+    out, nd = [], 0
     if procs <= 1 or len(trees) < 64:
         _export_init(tables)
-        return [_export_one(t) for t in trees]
+        for t in trees:
+            out.append(_export_one(t))
+            nd += out[-1][3] == 'diverged'
+            if nd > limit:
+                raise too_many(nd, out[-1][1])
+        return out
     ctx = multiprocessing.get_context('fork')
     with ctx.Pool(procs, initializer=_export_init, initargs=(tables,)) as pool:
+        it = pool.imap(_export_one, trees, chunksize=max(1, min(50, len(trees) // (procs * 8))))
         try:
-            return pool.map_async(_export_one, trees, chunksize=max(1, len(trees) // (procs * 8))).get(timeout=900)
+            for _ in range(len(trees)):
+                out.append(it.next(timeout=300))
+                nd += out[-1][3] == 'diverged'
+                if nd > limit:
+                    raise too_many(nd, out[-1][1])
         except multiprocessing.TimeoutError:
-            raise common.MachineryError('export of %d programs did not finish within 900 s' % len(trees))
+            raise common.MachineryError('export of %d programs stalled (no result for 300 s)' % len(trees))
+    return out
 
 
 # ------------------------------------------------------------------------------------------------
@@ -279,9 +304,6 @@ class Batch:
         exported = export_all(trees, self.tables, self.workers)
         t_export = tm.s()
         diverged = [i for i, e in enumerate(exported) if e[3] == 'diverged']
-        if len(diverged) > max(3, len(trees) // 100):
-            raise common.MachineryError('type inference did not terminate within %.0fs on %d of %d programs; first:\n%s' % (
-                ANALYSIS_TIMEOUT_S, len(diverged), len(trees), exported[diverged[0]][1]))
         errors = [(i, e[3]) for i, e in enumerate(exported) if e[3] and e[3] != 'diverged']
         if errors:
             i, msg = errors[0]
